@@ -2,4 +2,5 @@
 BrokenWhile  == {"WhileSwallowsReturn"}
 BrokenError  == {"ErrorDoesNotStop"}
 BrokenRemove == {"RemoveShiftsInPlace"}
+BrokenReclaim == {"ReclaimAlways"}
 =============================================================================
